@@ -44,7 +44,7 @@ MIN_NONTRIVIAL = {'quick': 3000, 'thorough': 12000}
 REQUIRED = ('inputs', 'no_hand_cases', 'omaha_inputs', 'greek_inputs',
             'badugi_inputs', 'low_inputs', 'iterator_inputs',
             'state_hands_checked', 'resplit_inputs', 'sibling_class_inputs',
-            'mixed_game_sequences')
+            'mixed_game_sequences', 'multi_board_views_followed')
 
 LOWISH = 'A2345678'
 
@@ -226,10 +226,41 @@ def check_states(res, rng, count):
             auto_styles=('typical',), hostile_chips=False)
         pol = driver.gen_policy(rng)
         pol['policy'] = rng.choice(['passive', 'passive', 'drawheavy'])
+        runouts = rng.random() < 0.3
+        if runouts:
+            # all-in run-outs dealt by hand: the boards are looked at while
+            # one run-out is on the table and the next is not
+            cfg['mode'] = 'CASH_GAME'
+            cfg['autos'] = [a for a in cfg['autos'] if a not in (
+                'BOARD_DEALING', 'CARD_BURNING', 'RUNOUT_COUNT_SELECTION')]
+            pol['policy'] = 'allin'
+            pol['runout_pref'] = rng.choice([2, 2, 3])
+            pol['deal'] = 'default'
 
         class Probe(driver.Monitor):
+            boards = None
+
             def on_decision(self, ctx, s, avail):
-                if rng.random() > 0.25 or s.street_index is None:
+                # a card dealt onto a board stays on that board, in place:
+                # every board only ever grows at its end (until the number
+                # of boards changes when run-outs are agreed)
+                now = [tuple(map(repr, s.get_board_cards(b)))
+                       for b in s.board_indices]
+                prev, self.boards = self.boards, now
+                if prev is not None and len(prev) == len(now):
+                    res.counters['board_views_followed'] += 1
+                    if len(now) > 1 and any(now):
+                        res.counters['multi_board_views_followed'] += 1
+                    for b, (x, y) in enumerate(zip(prev, now)):
+                        if y[:len(x)] != x:
+                            ctx.violate(
+                                f'get_board_cards({b}) was {x} and is now '
+                                f'{y} (boards {s.board_cards}, '
+                                f'{s.board_count} boards): a card seen on a '
+                                f'board left it or moved')
+                            return
+                if (rng.random() > 0.25 and not (runouts and s.all_in_status)) \
+                        or s.street_index is None:
                     return
                 for i in s.player_indices:
                     for b in s.board_indices:
